@@ -255,3 +255,12 @@ Theorem files_model_satisfies_checker :
     check_files t src offs cf (zlen cf * 2 + zlen (filter (has_off offs) (zrange 0 (zlen cf))) + 1) = true.
 Proof. exact files_model_passes_checker. Qed.
 Print Assumptions files_model_satisfies_checker.
+
+(* Whole histories: for every sequence of well-formed requests on which the model predicts no Go panic
+   (a START on an ErroringSource is the only one), the model's observations pass C19_check: the verdict
+   "implementation = model, yet the checker rejects" cannot occur. *)
+Theorem model_history_satisfies_checker :
+  forall ops,
+    Forall wf_op ops -> ~ In OPanic (run state0 ops) -> C19_check (combine ops (run state0 ops)) = true.
+Proof. exact model_history_passes_checker. Qed.
+Print Assumptions model_history_satisfies_checker.
